@@ -7,53 +7,47 @@ open ImathVerif
 
 /-- extracted from the C++ template at T = Sym; 1 path(s) -/
 def Sphere3.circumscribe {α : Type} [Add α] [Sub α] [Mul α] [Div α] [Neg α] [LT α] [LE α] [DecidableLT α] [DecidableLE α] [DecidableEq α] [OfNat α 0] [OfNat α 1] [OfNat α 2] (tmin : α) (sqrt : α → α) (b : Box3 α) : (Sphere3 α) :=
-  let t841 := (((1 : α) / (2 : α)) * (b.min.z + b.max.z))
-  let t842 := (((1 : α) / (2 : α)) * (b.min.y + b.max.y))
-  let t843 := (((1 : α) / (2 : α)) * (b.min.x + b.max.x))
-  ⟨⟨t843, t842, t841⟩, (V3.length tmin sqrt ⟨(b.max.x - t843), (b.max.y - t842), (b.max.z - t841)⟩)⟩
+  let t842 := (((1 : α) / (2 : α)) * (b.min.z + b.max.z))
+  let t843 := (((1 : α) / (2 : α)) * (b.min.y + b.max.y))
+  let t844 := (((1 : α) / (2 : α)) * (b.min.x + b.max.x))
+  ⟨⟨t844, t843, t842⟩, (V3.length tmin sqrt ⟨(b.max.x - t844), (b.max.y - t843), (b.max.z - t842)⟩)⟩
 
 /-- extracted from the C++ template at T = Sym; 4 path(s) -/
 def Sphere3.intersectT {α : Type} [Add α] [Sub α] [Mul α] [Div α] [Neg α] [LT α] [DecidableLT α] [OfNat α 0] [OfNat α 1] [OfNat α 2] [OfNat α 4] (sqrt : α → α) (s : Sphere3 α) (l : Line3 α) : (Bool × α) :=
-  let t852 := (l.pos.z - s.center.z)
-  let t853 := (l.pos.y - s.center.y)
-  let t854 := (l.pos.x - s.center.x)
-  let t860 := ((2 : α) * (((l.dir.x * t854) + (l.dir.y * t853)) + (l.dir.z * t852)))
-  let t871 := ((t860 * t860) - ((4 : α) * ((((t854 * t854) + (t853 * t853)) + (t852 * t852)) - (s.radius * s.radius))))
-  let t872 := (sqrt t871)
-  let t873 := (-t860)
-  let t875 := ((t873 - t872) * ((1 : α) / (2 : α)))
-  let t877 := ((t873 + t872) * ((1 : α) / (2 : α)))
-  if t871 < (0 : α) then
+  let t861 := ((2 : α) * (((l.dir.x * (l.pos.x - s.center.x)) + (l.dir.y * (l.pos.y - s.center.y))) + (l.dir.z * (l.pos.z - s.center.z))))
+  let t885 := ((t861 * t861) - ((4 : α) * ((((((l.pos.x * l.pos.x) + (l.pos.y * l.pos.y)) + (l.pos.z * l.pos.z)) - ((2 : α) * (((l.pos.x * s.center.x) + (l.pos.y * s.center.y)) + (l.pos.z * s.center.z)))) + (((s.center.x * s.center.x) + (s.center.y * s.center.y)) + (s.center.z * s.center.z))) - (s.radius * s.radius))))
+  let t886 := (sqrt t885)
+  let t887 := (-t861)
+  let t889 := ((t887 - t886) * ((1 : α) / (2 : α)))
+  let t891 := ((t887 + t886) * ((1 : α) / (2 : α)))
+  if t885 < (0 : α) then
     (false, (0 : α))
   else
-    if t875 < (0 : α) then
-      if t877 < (0 : α) then
-        (false, t877)
+    if t889 < (0 : α) then
+      if t891 < (0 : α) then
+        (false, t891)
       else
-        (true, t877)
+        (true, t891)
     else
-      (true, t875)
+      (true, t889)
 
 /-- extracted from the C++ template at T = Sym; 4 path(s) -/
 def Sphere3.intersect {α : Type} [Add α] [Sub α] [Mul α] [Div α] [Neg α] [LT α] [DecidableLT α] [OfNat α 0] [OfNat α 1] [OfNat α 2] [OfNat α 4] (sqrt : α → α) (s : Sphere3 α) (l : Line3 α) : (Bool × (V3 α)) :=
-  let t852 := (l.pos.z - s.center.z)
-  let t853 := (l.pos.y - s.center.y)
-  let t854 := (l.pos.x - s.center.x)
-  let t860 := ((2 : α) * (((l.dir.x * t854) + (l.dir.y * t853)) + (l.dir.z * t852)))
-  let t871 := ((t860 * t860) - ((4 : α) * ((((t854 * t854) + (t853 * t853)) + (t852 * t852)) - (s.radius * s.radius))))
-  let t872 := (sqrt t871)
-  let t873 := (-t860)
-  let t875 := ((t873 - t872) * ((1 : α) / (2 : α)))
-  let t877 := ((t873 + t872) * ((1 : α) / (2 : α)))
-  if t871 < (0 : α) then
+  let t861 := ((2 : α) * (((l.dir.x * (l.pos.x - s.center.x)) + (l.dir.y * (l.pos.y - s.center.y))) + (l.dir.z * (l.pos.z - s.center.z))))
+  let t885 := ((t861 * t861) - ((4 : α) * ((((((l.pos.x * l.pos.x) + (l.pos.y * l.pos.y)) + (l.pos.z * l.pos.z)) - ((2 : α) * (((l.pos.x * s.center.x) + (l.pos.y * s.center.y)) + (l.pos.z * s.center.z)))) + (((s.center.x * s.center.x) + (s.center.y * s.center.y)) + (s.center.z * s.center.z))) - (s.radius * s.radius))))
+  let t886 := (sqrt t885)
+  let t887 := (-t861)
+  let t889 := ((t887 - t886) * ((1 : α) / (2 : α)))
+  let t891 := ((t887 + t886) * ((1 : α) / (2 : α)))
+  if t885 < (0 : α) then
     (false, ⟨(0 : α), (0 : α), (0 : α)⟩)
   else
-    if t875 < (0 : α) then
-      if t877 < (0 : α) then
+    if t889 < (0 : α) then
+      if t891 < (0 : α) then
         (false, ⟨(0 : α), (0 : α), (0 : α)⟩)
       else
-        (true, ⟨(l.pos.x + (l.dir.x * t877)), (l.pos.y + (l.dir.y * t877)), (l.pos.z + (l.dir.z * t877))⟩)
+        (true, ⟨(l.pos.x + (l.dir.x * t891)), (l.pos.y + (l.dir.y * t891)), (l.pos.z + (l.dir.z * t891))⟩)
     else
-      (true, ⟨(l.pos.x + (l.dir.x * t875)), (l.pos.y + (l.dir.y * t875)), (l.pos.z + (l.dir.z * t875))⟩)
+      (true, ⟨(l.pos.x + (l.dir.x * t889)), (l.pos.y + (l.dir.y * t889)), (l.pos.z + (l.dir.z * t889))⟩)
 
 end ImathVerif.Gen
